@@ -5,6 +5,7 @@ import MySensors.Driver.OtaCmd
 import MySensors.Driver.FramingCmd
 import MySensors.Driver.TablesCmd
 import MySensors.Driver.SpecCmd
+import MySensors.Driver.TransportCmd
 
 namespace MySensors.Driver
 open MySensors
@@ -34,7 +35,7 @@ def valCmd (cmd : String) (args : List String) : Option String :=
 
 /-- state-free command groups; each property family adds its own `…Cmd` here -/
 def cmdTable : List (String → List String → Option String) :=
-  [codecCmd, valCmd, mqttCmd, framingCmd, otaCmd, persistCmd, tablesCmd, specCmd]
+  [codecCmd, valCmd, mqttCmd, framingCmd, otaCmd, persistCmd, tablesCmd, specCmd, Transport.trCmd, Transport.supCmd]
 
 /-- one protocol line → new driver state and one output line -/
 def stepLine (st : DState) (line : String) : DState × String :=
